@@ -16,6 +16,7 @@ import (
 type opTracer struct {
 	out  map[string]bool
 	seen map[*ssa.Function]bool
+	dyn  func(ssa.Value) *ssa.Function // optional: function values determined by an evaluated path
 }
 
 type opEnv struct {
@@ -112,6 +113,12 @@ func (t *opTracer) resolveFn(v ssa.Value, env *opEnv) *opClosure {
 			return c
 		}
 	}
+	// a function value the evaluated path determines (element of a constant function table)
+	if t.dyn != nil {
+		if f := t.dyn(v); f != nil {
+			return &opClosure{fn: f, env: &opEnv{side: map[ssa.Value]string{}, fns: map[ssa.Value]*opClosure{}}}
+		}
+	}
 	return nil
 }
 
@@ -161,6 +168,16 @@ func (t *opTracer) trace(fn *ssa.Function, env *opEnv, depth int) {
 			if callee == nil || callee.fn == nil {
 				return
 			}
+			if callee.fn.Blocks == nil {
+				// a library function taken from a table: math.Pow and the like
+				if callee.fn.Pkg != nil && callee.fn.Pkg.Pkg.Path() == "math" && len(x.Call.Args) == 2 {
+					a, b := t.sideOf(fn, x.Call.Args[0], env, 0), t.sideOf(fn, x.Call.Args[1], env, 0)
+					if a != "" && b != "" {
+						t.out["math."+callee.fn.Name()+"("+a+","+b+")"] = true
+					}
+				}
+				return
+			}
 			ne := &opEnv{side: map[ssa.Value]string{}, fns: map[ssa.Value]*opClosure{}}
 			for k, v := range callee.env.side {
 				ne.side[k] = v
@@ -192,7 +209,12 @@ func (t *opTracer) trace(fn *ssa.Function, env *opEnv, depth int) {
 // v is the value returned by buildSampleBinOp for one operator: a closure, or the
 // result of a constructor helper that returns one.
 func sampleOpSummaryOf(v ssa.Value) (summary []string, cl *ssa.Function, ok bool) {
-	t := &opTracer{out: map[string]bool{}, seen: map[*ssa.Function]bool{}}
+	return sampleOpSummaryOfDyn(v, nil)
+}
+
+// sampleOpSummaryOfDyn: dyn resolves function values that only the evaluated path determines.
+func sampleOpSummaryOfDyn(v ssa.Value, dyn func(ssa.Value) *ssa.Function) (summary []string, cl *ssa.Function, ok bool) {
+	t := &opTracer{out: map[string]bool{}, seen: map[*ssa.Function]bool{}, dyn: dyn}
 	root := &opEnv{side: map[ssa.Value]string{}, fns: map[ssa.Value]*opClosure{}}
 	var oc *opClosure
 	switch x := v.(type) {
@@ -289,6 +311,7 @@ func ruleSampleBinOp(r *Run) {
 		o := r.Ob("CH-MAP", "logqlmetric.buildSampleBinOp["+cr.Const+"]", "the sample operation applies the operator it is built for to (left value, right value), keeps the left side's labels, and maps x/0 and x%0 to NaN")
 		o.Trivial = !listed
 		var vals []ssa.Value
+		var valEnd *feEnd
 		allErr := true
 		for _, e := range cr.Ends {
 			if isErr, known := endReturnsError(e); known && isErr {
@@ -297,6 +320,7 @@ func ruleSampleBinOp(r *Run) {
 			allErr = false
 			if len(e.Results) > 0 {
 				vals = append(vals, e.Results[0].V)
+				valEnd = e
 			}
 		}
 		if !listed {
@@ -311,7 +335,17 @@ func ruleSampleBinOp(r *Run) {
 			o.Fail(r.pos(fn.Pos()), "expected exactly one operation per operator, found %d", len(vals))
 			continue
 		}
-		sum, c, okc := sampleOpSummaryOf(vals[0])
+		crW := cr.W
+		sum, c, okc := sampleOpSummaryOfDyn(vals[0], func(v ssa.Value) *ssa.Function {
+			if crW == nil || valEnd == nil {
+				return nil
+			}
+			if in, isIn := v.(ssa.Instruction); isIn && in.Parent() != fn {
+				return nil
+			}
+			f, _ := crW.resolveCallee(valEnd.State, v, 0)
+			return f
+		})
 		if !okc {
 			o.Undecide(r.pos(fn.Pos()), "the operation %s is not a closure over (left, right) the rule can follow", describe(vals[0], 0))
 			continue
